@@ -105,6 +105,7 @@ class NPStub:
 class FileObj:
     def __init__(self, w, path, mode):
         self.w, self.path, self.mode = w, str(path), mode
+        self.pos = 0
         if 'w' in mode:
             w.fs[self.path] = ''
 
@@ -113,10 +114,24 @@ class FileObj:
         self.w.writes.append((self.path, s))
 
     def read(self):
-        return self.w.fs[self.path]
+        t = self.w.fs[self.path][self.pos:]
+        self.pos = len(self.w.fs[self.path])
+        return t
+
+    def readline(self):
+        t = self.w.fs[self.path]
+        i = t.find('\n', self.pos)
+        j = len(t) if i < 0 else i + 1
+        ln = t[self.pos:j]
+        self.pos = j
+        return ln
 
     def readlines(self):
-        return self.w.fs[self.path].splitlines(keepends=True)
+        return self.read().splitlines(keepends=True)
+
+    @property
+    def name(self):
+        return self.path
 
     def __enter__(self):
         return self
